@@ -266,6 +266,7 @@ def run(ctx):
     # ---- FunctionType::matches
     fb, fcalls, fcombs = analyse(lib, FM)
     if res.anchor(fb is not None, FM):
+        top_f = Prov(lib, fb, {1: {"S"}, 2: {"O"}})
         seen = set()
         for cb, c, a0, a1 in fcalls:
             n += 1
@@ -293,6 +294,68 @@ def run(ctx):
             res.ok(key, fb.where(), "parameter counts compared")
         else:
             res.bad(key, "FunctionType::matches no longer compares the number of parameters (zip stops at the shorter list)", fb.where())
+        # the conjuncts are mandatory: once the arity test, a parameter comparison or the result comparison has failed, no
+        # way may lead to a true answer (a disjunct such as `|| the result is ()` opens one)
+        true_sources = []
+        for blk_i, blk in enumerate(fb.blocks):
+            for st in blk["stmts"]:
+                if st["k"] == "assign" and st["place"]["l"] == 0 and not st["place"]["p"]:
+                    o = st["rv"].get("o", {})
+                    if not (st["rv"]["k"] == "use" and o.get("k") == "const" and o.get("val") == "false"):
+                        true_sources.append(blk_i)
+        for c in fb.calls:
+            if c.dest["l"] == 0 and not c.dest["p"]:
+                true_sources.append(c.bb)
+
+        def switch_on(local):
+            return next((i for i, blk in enumerate(fb.blocks) if blk["term"]["k"] == "switch" and op_local(blk["term"]["discr"]) == local), None)
+        gates = []      # (what, block where the comparison has failed)
+        for blk_i, blk in enumerate(fb.blocks):
+            for st in blk["stmts"]:
+                if st["k"] == "assign" and st["rv"]["k"] == "binop" and st["rv"].get("op") in ("Eq", "Ne") and st["rv"].get("ty") == "usize":
+                    sw = switch_on(st["place"]["l"])
+                    if sw is not None:
+                        t = fb.blocks[sw]["term"]
+                        zero = [tg for v, tg in t["targets"] if v == "0"]
+                        fail = (zero[0] if zero else None) if st["rv"]["op"] == "Eq" else t["otherwise"]
+                        if fail is not None:
+                            gates.append(("arity", fail))
+        for c in fb.calls:
+            what = None
+            if c.path.rsplit("::", 1)[-1] == "all":
+                what = "params"
+            elif c.callee == TM:
+                labs = flat(top_f.of_op(c.args[0])) | flat(top_f.of_op(c.args[1]))
+                what = "params" if any(x.endswith(".params") for x in labs) else "result" if any(x.endswith(".return_type") for x in labs) else None
+            if what is None or c.dest["l"] == 0:
+                continue
+            sw = switch_on(c.dest["l"])
+            if sw is None:
+                continue
+            t = fb.blocks[sw]["term"]
+            zero = [tg for v, tg in t["targets"] if v == "0"]
+            if zero:
+                gates.append((what, zero[0]))
+        # the result comparison comes last: nothing else may produce a true answer beside it
+        rcalls = [c for c in fb.calls if c.callee == TM and any(x.endswith(".return_type") for x in flat(top_f.of_op(c.args[0])) | flat(top_f.of_op(c.args[1])))]
+        key = "variance:function|mandatory-result"
+        if len(rcalls) == 1:
+            rc = rcalls[0]
+            stray = [ts for ts in true_sources if ts != rc.bb and rc.bb not in fb.dom[ts]]
+            if stray:
+                res.bad(key, "FunctionType::matches can answer true without comparing the result types (%s): a function whose result does not "
+                             "fit is accepted where another result type is expected" % fb.where(fb.blocks[stray[0]]["term"].get("line")), fb.where())
+            else:
+                res.ok(key, fb.where(rc.line), "every true answer comes from (or after) the comparison of the result types")
+        for what, fail in gates:
+            key = "variance:function|mandatory-%s" % what
+            reach = fb.reachable(fail)
+            leak = [ts for ts in true_sources if ts in reach]
+            if leak:
+                res.bad(key, "FunctionType::matches can still answer true after the %s comparison failed (%s): a function whose %s does not "
+                             "fit is accepted" % (what, fb.where(fb.blocks[leak[0]]["term"].get("line")), what), fb.where())
+            else:
+                res.ok(key, fb.where(), "a failed %s comparison cannot lead to a true answer" % what)
         for cb, c, which, recv in fcombs:
             if which != "all":
                 res.bad("variance:function|all", "all parameters must be compared (found `%s`)" % which, cb.where(c.line))
